@@ -64,6 +64,13 @@ func runC03(r *core.Run) (bool, string) {
 		cps = append(cps, cp)
 		pkgs = append(pkgs, &gorun.Pkg{Name: name, Files: map[string]string{name + ".go": cp.Source}})
 	}
+	// look-alikes just outside the subset (go statements with arguments, bare returns in goroutine bodies):
+	// rejected-or-faithful
+	{
+		cp := gen.ConcurrentLookalikePackage("lk0")
+		cps = append(cps, cp)
+		pkgs = append(pkgs, &gorun.Pkg{Name: cp.Name, Files: map[string]string{cp.Name + ".go": cp.Source}})
+	}
 	// shipped concurrent examples are exercised too (spawn.go / locks.go / condvar.go are in unittest; they
 	// have no closed cases, so only generated programs are compared)
 	dir := filepath.Join(r.Scratch, "c03")
@@ -114,7 +121,23 @@ func runC03(r *core.Run) (bool, string) {
 	// translate
 	gr := b.RunGoose(goose, filepath.Join(dir, "out"), []string{"-ignore-errors"})
 	gerrs, _ := parseGooseErrors(gr.Stderr)
+	mayReject := map[string]bool{}
+	for _, cp := range cps {
+		if cp.MayReject {
+			mayReject[cp.Name] = true
+		}
+	}
 	for _, e := range gerrs {
+		lk := false
+		for n := range mayReject {
+			if strings.Contains(e.Src, "/cases/"+n+"/") {
+				lk = true
+			}
+		}
+		if lk {
+			r.Count("lookalike_cases_rejected_by_goose", 1)
+			continue
+		}
 		r.Violate("c03-rejected-"+sigOf(e.Message), "goose rejects a supported concurrent program: "+e.Raw, map[string]interface{}{"error": e.Raw})
 	}
 	if gr.Code >= 2 || strings.Contains(gr.Stderr, "panic:") {
@@ -161,6 +184,10 @@ func runC03(r *core.Run) (bool, string) {
 		}
 		prog := progs[j.cp.Name]
 		if len(prog.Index[j.cn]) == 0 {
+			if j.cp.MayReject {
+				r.Count("lookalike_cases_not_compared", 1)
+				return
+			}
 			r.Violate("c03-case-not-emitted", "definition of "+j.cn+" missing", nil)
 			return
 		}
